@@ -295,7 +295,7 @@ class ValidateProbDist(E2Contract):
     prop = "C16"
     targets = ("quara.math.probability:validate_prob_dist",)
     may_raise = True
-    max_paths = 64
+    max_paths = 800
     n_conformance = 2
 
     def configs(self, tier):
